@@ -308,31 +308,32 @@ func (o *oracleCtx) checkStep(step int, op Op, pre, post Obs, preImg, postImg *S
 		target[op.ID] = true
 	}
 
-	// C03: bystanders are not disturbed; C02: a live object keeps ID, attributes, content
+	// C03: bystanders are not disturbed; C02: a live object keeps ID, attributes, content.
+	// Objects never change slot, so the comparison is by slot.
 	postLive := liveByID(postImg)
 	for i, d := range preImg.Descs {
 		if !d.Used || target[d.ID] {
 			continue
 		}
-		j, still := postLive[d.ID]
-		if !still {
+		if i >= len(postImg.Descs) || !postImg.Descs[i].Used {
 			if op.Kind != OpDelete {
 				o.add("C02", step, "", "%s removed object %d", op.KindName(), d.ID)
 			}
 			continue
 		}
-		if j != i {
-			o.add("C02", step, "", "object %d moved from slot %d to slot %d", d.ID, i, j)
-		}
-		dn, pn := d, postImg.Descs[j]
+		dn, pn := d, postImg.Descs[i]
 		dn.UsedByte, pn.UsedByte = 1, 1 // any non-zero "used" byte reads as true and is rewritten as 1
 		if !bytes.Equal(EncodeDesc(dn), EncodeDesc(pn)) {
-			o.add("C03", step, "", "%s changed the descriptor of bystander object %d", op.KindName(), d.ID)
+			for _, p := range []string{"C03", "C02"} {
+				o.add(p, step, "", "%s changed the descriptor of bystander object %d (slot %d)", op.KindName(), d.ID, i)
+			}
 		}
 		x, ok1 := region(pre.Store, d)
 		y, ok2 := region(post.Store, d)
 		if ok1 && (!ok2 || !bytes.Equal(x, y)) {
-			o.add("C03", step, "", "%s changed the content of bystander object %d", op.KindName(), d.ID)
+			for _, p := range []string{"C03", "C01", "C02"} {
+				o.add(p, step, "", "%s changed the content of bystander object %d (slot %d): it no longer reads back as stored", op.KindName(), d.ID, i)
+			}
 		}
 	}
 
